@@ -100,17 +100,52 @@ class BuildFailure(Exception):
     pass
 
 
-def build_test(scratch, pkgdir, variant, race=False):
+def files_defining(tests):
+    """Injected files that define the given test functions: they must stay in the build."""
+    keep = set()
+    for root, _d, files in os.walk(os.path.join(VERIF, "src", "inj")):
+        for f in files:
+            if f.endswith(".go"):
+                p = os.path.join(root, f)
+                txt = open(p).read()
+                if any(("func %s(" % t) in txt for t in tests):
+                    keep.add(p)
+    return keep
+
+
+def build_test(scratch, pkgdir, variant, race=False, tests=()):
+    """Builds the test binary. If an injected harness file that this check does not need fails to
+    compile against the tree (it binds to an unexported name that changed), it is dropped and the
+    build retried, so that one stale binding does not take every check of the package down."""
     ov, notes = make_overlay(scratch, variant)
     out = os.path.join(scratch, "%s.%s%s.test" % (pkgdir.replace("/", "_"), variant, ".race" if race else ""))
-    cmd = ["go", "test", "-c", "-tags", "verif", "-vet=off", "-overlay", ov, "-o", out]
-    if race:
-        cmd.append("-race")
-    cmd.append("./" + pkgdir)
+    keep = files_defining(tests)
     t0 = time.time()
-    r = subprocess.run(cmd, cwd=REPO, env=goenv(), capture_output=True, text=True)
-    if r.returncode != 0 or not os.path.exists(out):
-        raise BuildFailure("go test -c %s (%s): %s%s" % (pkgdir, variant, r.stdout, r.stderr))
+    dropped = []
+    for _attempt in range(8):
+        cmd = ["go", "test", "-c", "-tags", "verif", "-vet=off", "-overlay", ov, "-o", out]
+        if race:
+            cmd.append("-race")
+        cmd.append("./" + pkgdir)
+        r = subprocess.run(cmd, cwd=REPO, env=goenv(), capture_output=True, text=True)
+        if r.returncode == 0 and os.path.exists(out):
+            break
+        import re
+        bad = set(m for m in re.findall(r"(/[^\s:]*/src/inj/[^\s:]+\.go):\d+", r.stdout + r.stderr))
+        removable = [b for b in bad if b not in keep]
+        if not removable:
+            raise BuildFailure("go test -c %s (%s): %s%s" % (pkgdir, variant, r.stdout, r.stderr))
+        with open(ov) as f:
+            o = json.load(f)
+        o["Replace"] = {k: v for k, v in o["Replace"].items() if v not in removable}
+        with open(ov, "w") as f:
+            json.dump(o, f)
+        dropped += removable
+    else:
+        raise BuildFailure("go test -c %s (%s): still failing after dropping %s" % (pkgdir, variant, dropped))
+    if dropped:
+        notes = notes + ["harness files dropped because they no longer compile against this tree (not needed by this check): " + ", ".join(sorted(os.path.basename(d) for d in set(dropped)))]
+        log("note: dropped " + ", ".join(sorted(os.path.basename(d) for d in set(dropped))))
     log("built %s %s%s in %.1fs" % (pkgdir, variant, " race" if race else "", time.time() - t0))
     return out, notes
 
@@ -148,10 +183,14 @@ def run_parts(prop, tier, scratch, parts, known, replay=None):
     build_notes = []
     need_pp = any(p.get("needs_pp") for p in parts)
     pp = build_pp(scratch) if need_pp else ""
+    tests_by_key = {}
+    for part in parts:
+        k = (part["pkg"], part.get("variant", "plain"), bool(part.get("race")))
+        tests_by_key.setdefault(k, set()).add(part["test"])
     for part in parts:
         k = (part["pkg"], part.get("variant", "plain"), bool(part.get("race")))
         if k not in bins:
-            b, notes = build_test(scratch, k[0], k[1], k[2])
+            b, notes = build_test(scratch, k[0], k[1], k[2], tests_by_key[k])
             bins[k] = b
             build_notes += notes
     procs = []
